@@ -102,6 +102,14 @@ func gangHistory(c *Ctx, d *coreDrv) {
 		gapps = append(gapps, g)
 	}
 	submitPh := func(g *gapp, key string) {
+		// now and then the placeholder is reported as already bound (recovery style: the pod runs since before a restart)
+		if nodes := sortedKeys(s.nodes); len(nodes) > 0 && c.chance(0.12) {
+			n := s.pickFrom(nodes)
+			emit(map[string]interface{}{"op": "alloc", "app": g.id, "key": key, "node": n, "res": encRes(g.phRes[key]), "ph": true, "tg": g.tg[key], "ctime": 1, "prio": 1})
+			s.asks[key] = &shimAsk{app: g.id, key: key, res: g.phRes[key], ph: true, tg: g.tg[key]}
+			s.bound[key] = n
+			return
+		}
 		emit(map[string]interface{}{"op": "alloc", "app": g.id, "key": key, "res": encRes(g.phRes[key]), "ph": true, "tg": g.tg[key], "ctime": 1, "prio": 1})
 		s.asks[key] = &shimAsk{app: g.id, key: key, res: g.phRes[key], ph: true, tg: g.tg[key]}
 	}
@@ -351,10 +359,12 @@ const preemptConfig = `partitions:
           - name: a
             resources:
               guaranteed: {cpu: %d, mem: %d}
+              max: {cpu: 14, mem: 40}
           - name: b
             parent: true
             resources:
               guaranteed: {cpu: %d, mem: %d}
+              max: {cpu: 16, mem: 40}
             queues:
               - name: b1
                 resources:
@@ -415,6 +425,22 @@ func preemptHistory(c *Ctx, d *coreDrv) {
 			askFor(filler, c.pick(2), false)
 		case p < 70:
 			emit(s.scheduleOp(interruptP))
+			// a victim was just marked: now and then the RM removes the victim's application before the shim has confirmed the
+			// preemption (its preempting total is still booked on the queues)
+			for _, pc := range s.pendConf {
+				if pc["type"] == "PREEMPTED_BY_SCHEDULER" && s.apps[pc["app"].(string)] && c.chance(0.08) {
+					id := pc["app"].(string)
+					emit(map[string]interface{}{"op": "app-remove", "id": id})
+					delete(s.apps, id)
+					for k, a := range s.asks {
+						if a.app == id {
+							delete(s.asks, k)
+							delete(s.bound, k)
+						}
+					}
+					break
+				}
+			}
 		case p < 82:
 			for len(s.pendConf) > 0 {
 				conf := s.pendConf[0]
